@@ -169,9 +169,11 @@ func runSelfTest(verif string) int {
 	lockCase("lockedWrite", heldWrite)
 	lockCase("unlockedWrite", heldNone)
 	lockCase("deferLockedWrite", heldWrite)
-	lockCase("helperUnderLock", heldWrite)   // entry lockset = intersection over call sites
-	lockCase("helperMixedCallers", heldNone) // one caller without the lock
-	lockCase("goroutineBody", heldNone)      // go statement starts with an empty lockset
+	lockCase("helperUnderLock", heldWrite)     // entry lockset = intersection over call sites
+	lockCase("helperMixedCallers", heldNone)   // one caller without the lock
+	lockCase("goroutineBody", heldNone)        // go statement starts with an empty lockset
+	lockCase("callbackUnderLock$1", heldWrite) // callback called synchronously by a helper that holds the lock
+	lockCase("callbackOutsideLock$1", heldNone)
 	// --- nil-after-error field summary (R-B) ---
 	sums := p.nilFieldSummaries(p.fns)
 	if os.Getenv("SFDEBUG") != "" {
